@@ -82,7 +82,8 @@ def impl(case):
         if '\xff' in query:
             qs = query                       # raw (invalid UTF-8) bytes given directly as latin-1 code points
         got.clear()
-        r = wsgi.call(app, wsgi.environ(pi, method=method, query=qs))
+        sn = case.get('script_name', '')       # the application mounted below a script root (SCRIPT_NAME): part of the URL, not of the path
+        r = wsgi.call(app, wsgi.environ(pi, method=method, query=qs, script_name=sn))
         rec = {'status': r.code, 'exc': type(r.exc).__name__ if r.exc else None, 'location': r.header('Location'),
                'matched': br.match_path('/' + path.lstrip('/')) is not None,
                'matched_canonical': br.match_path(norm('/' + path.lstrip('/'), br.pattern.endswith('/'))) is not None,
@@ -90,8 +91,11 @@ def impl(case):
         if rec['location'] and r.code in (301, 302, 303, 307, 308):
             u = urlsplit(rec['location'])
             p2 = unquote_to_bytes(u.path).decode('latin-1')
+            rec['under_script_root'] = p2.startswith(sn + '/') if sn else True
+            if sn and p2.startswith(sn + '/'):
+                p2 = p2[len(sn):]
             got.clear()
-            r2 = wsgi.call(app, wsgi.environ(p2, method=method, query=u.query))
+            r2 = wsgi.call(app, wsgi.environ(p2, method=method, query=u.query, script_name=sn))
             rec['second'] = {'status': r2.code, 'exc': type(r2.exc).__name__ if r2.exc else None,
                              'location': r2.header('Location'), 'path_info': p2.encode('latin-1').decode('utf8', 'replace'),
                              'seen_path': got.get('path'),
@@ -99,7 +103,7 @@ def impl(case):
             # the same method on the normalised path directly
             got.clear()
             want_path = norm('/' + path.lstrip('/'))
-            r3 = wsgi.call(app, wsgi.environ(want_path.encode('utf8').decode('latin-1'), method=method, query=qs))
+            r3 = wsgi.call(app, wsgi.environ(want_path.encode('utf8').decode('latin-1'), method=method, query=qs, script_name=sn))
             rec['direct'] = {'status': r3.code, 'kw': sorted((k, canon_val(v)) for k, v in got.get('kw', {}).items()) if 'kw' in got else None}
         out.append(rec)
     return {'pattern_full': br.pattern, 'mode': br.slash_mode, 'requests': out}
@@ -147,6 +151,11 @@ def oracle(case, obs):
             continue
         u = urlsplit(o['location'])
         want_path = norm(seen)
+        sn = case.get('script_name', '')
+        if sn:
+            if not o.get('under_script_root'):
+                return ('%s: mounted at %s, redirected to %s which leaves the mount point' % (what, sn, o['location']), 'script-root')
+            u = u._replace(path=u.path[len(sn):])
         if unquote_to_bytes(u.path) != want_path.encode('utf8'):
             return ('%s: Location path %r decodes to %r, canonical path is %r' % (what, u.path, unquote_to_bytes(u.path), want_path), 'location-path')
         qbytes = query.encode('latin-1') if '\xff' in query else query.encode('utf8')
@@ -192,6 +201,7 @@ def gen_case(rng, tier):
             path = '/'
         reqs.append([rng.choice(METHODS), path, rng.choice(QUERIES)])
     case['requests'] = reqs
+    case['script_name'] = rng.choice(['', '', '/api', '/mnt/v1'])
     if case['methods'] and pattern != '/' and rng.random() < 0.6:
         # two routes for one path with different method sets, a method neither admits early in the history
         case['shadow'] = ['POST', 'DELETE'] if 'POST' not in case['methods'] else ['GET', 'DELETE']
@@ -221,7 +231,7 @@ def run(rep, b, tier, seed, only_cases=None):
     corpus = [c['case'] if 'case' in c else c for c in core.load_corpus('C07')]
     cases = list(only_cases) if only_cases is not None else corpus + [gen_case(rng, tier) for _ in range(600 if tier == 'quick' else 6000)]
     rep.rule = ('redirectlab: %d route shapes (branch/leaf x static/single/multi/optional/int bindings, root) x method sets x '
-                'route-level, application-level and embedding-application slash modes x an optional second route behind it for the same paths with the complementary method set (histories start with a method neither admits) x inherit_slashes on/off at both levels x '
+                'route-level, application-level and embedding-application slash modes x an optional second route behind it for the same paths with the complementary method set (histories start with a method neither admits) x inherit_slashes on/off at both levels x script roots (SCRIPT_NAME empty, /api, /mnt/v1) x '
                 'prefixes; request paths assembled from %d segments incl. URL-significant characters with 1-3 slashes between and '
                 '0-2 at the end; %d query strings incl. malformed escapes, raw non-UTF-8 bytes and every delimiter; %d methods; every '
                 'Location is followed by a second raw request and compared with a direct request to the canonical path; the Location '
@@ -238,7 +248,7 @@ def run(rep, b, tier, seed, only_cases=None):
             continue
         for k, ((method, path, query), r) in enumerate(zip(c['requests'], o['requests'])):
             qb = query.encode('latin-1') if '\xff' in query else query.encode('utf8')
-            lines.append('redirectlab ' + sexp.dumps(['http://localhost', ('/' + path.lstrip('/')).encode('utf8'), qb]))
+            lines.append('redirectlab ' + sexp.dumps(['http://localhost' + c.get('script_name', ''), ('/' + path.lstrip('/')).encode('utf8'), qb]))
             idx.append((i, k))
     model_out = None
     if b.driver_ok:
